@@ -1,4 +1,5 @@
 import AdeptModel.Views
+import AdeptModel.IndexedViews
 import Driver.Common
 /-! line protocol of the `views` family (same text as harness/drv_views.cpp)
 
@@ -9,9 +10,15 @@ import Driver.Common
   idx E                           operator[]
   T | permute p0 p1 … | diag k | subdiag b e | reshape d0 d1 … | softlink
   contig                          is_contiguous() of the current view (state unchanged)
+  ix S0 S1 …                      integer-vector indexing A(S0,S1,…) of the current view (state unchanged)
+                                  S = i:E | r:E,E | s:E,E,S | _ | v:a,b,… | x:a,b,… | w:K0,K1,…
+                                  (v: intVector, x: the expression tmp+2 with these values, w: end - tmp with tmp = K's)
 
   answer to a view-forming op:  `ok r=… d=… s=… o=… e=… w=…`  (rank, extents, offsets, data()-parent,
   elements in index order, parent cells changed by writing -(j+1) through element j)  or  `err <class>`.
+  answer to `ix`:  `err <class>` (the IndexedArray constructor threw)  or  `ok r=… d=… e=E w=W z=Z`:
+  E cells read in index order or `!<class>`; W cells changed by assigning -(j+1) to element j, `cell:value;…`,
+  followed by `!<class>` if the assignment threw; Z the same for the scalar assignment of -7.
 -/
 open Adept Adept.Views
 
@@ -75,6 +82,50 @@ def parseOp (ws : List String) : Option Op :=
   | ["softlink"] => some Op.softLink
   | _ => none
 
+/-! ### integer-vector indexing -/
+
+/-- a selector and the letter of the C++ argument type the harness uses for it -/
+def parseSel (t : String) : Option (Sel × Char) :=
+  let entries (u : String) : Option (List Int) :=
+    if u = "" then some [] else (u.splitOn ",").mapM String.toInt?
+  if t.startsWith "v:" then (entries (t.drop 2).toString).map fun l => (Sel.vec (l.map EndExpr.lit), 'V')
+  else if t.startsWith "x:" then (entries (t.drop 2).toString).map fun l => (Sel.vec (l.map EndExpr.lit), 'X')
+  else if t.startsWith "w:" then (entries (t.drop 2).toString).map fun l => (Sel.vec (l.map EndExpr.fromEnd), 'W')
+  else match parseIx t with
+    | some (.at (.lit k)) => some (Sel.at (.lit k), 'I')
+    | some (.at (.fromEnd k)) => some (Sel.at (.fromEnd k), 'E')
+    | some (.range b e) => some (Sel.range b e 1, 'R')
+    | some (.stride b e s) => some (Sel.range b e s, 'R')
+    | some .all => some (Sel.all, 'A')
+    | none => none
+
+/-- the argument-type patterns compiled into the harness (drv_views_idx.h) -/
+def ixMenu4 : List String :=
+  ["IEVA", "EIEV", "VIEI", "AVIE", "IVRE", "VVVV", "EAVV", "RVAI", "IIEV", "VEEI", "AIVE", "VRAV"]
+
+def ixCompiled (letters : List Char) : Bool :=
+  let isVec (c : Char) : Bool := c = 'V' || c = 'X' || c = 'W'
+  letters.any isVec &&
+  match letters.length with
+  | 1 => true
+  | 2 => true
+  | 3 => letters.all fun c => c ≠ 'X' && c ≠ 'W'
+  | 4 => ixMenu4.contains (String.ofList letters)
+  | _ => false
+
+def showStores (st : List (Int × Int)) (e : Option Err) : String :=
+  let m := st.foldl (fun acc (c, x) => put c x acc) []
+  ";".intercalate (m.map fun (c, x) => s!"{c}:{x}") ++ (match e with | some e => "!" ++ e.name | none => "")
+
+def describeIx (checked : Bool) (iv : IView) : String :=
+  let n := (allIndices iv.dims).length
+  let e := match ixRead checked iv with
+    | .ok cells => joinInts cells
+    | .error e => "!" ++ e.name
+  let (w, we) := ixStores checked iv ((List.range n).map fun (j : Nat) => -((j : Int) + 1))
+  let (z, ze) := ixStores checked iv (List.replicate n (-7))
+  s!"ok r={iv.dims.length} d={joinInts (iv.dims.map Int.ofNat)} e={e} w={showStores w we} z={showStores z ze}"
+
 /-- calls that do not exist in the C++ for the current rank (the harness answers `bad-op`) -/
 def compiles (v : View) : Op → Bool
   | .slice a => a.length = v.dims.length
@@ -102,6 +153,15 @@ def step (s : St) (ws : List String) : St × String :=
     match s.cur with
     | some v => if v.dims.isEmpty then (s, "bad-op") else (s, s!"contig={if isContiguous v then 1 else 0}")
     | none => (s, "bad-op")
+  | "ix" :: args =>
+    match s.cur, args.mapM parseSel with
+    | some v, some sl =>
+      if sl.length ≠ v.dims.length ∨ ¬ ixCompiled (sl.map (·.2)) then (s, "bad-op") else
+      match indexed v (sl.map (·.1)) s.checked with
+      | .ok iv => (s, describeIx s.checked iv)
+      | .error .bad_rank => (s, "bad-op")
+      | .error e => (s, "err " ++ e.name)
+    | _, _ => (s, "bad-op")
   | _ =>
     match s.cur, parseOp ws with
     | some v, some op =>
